@@ -47,7 +47,7 @@ SYMBOL_REGEX = re.compile(
 
 # Patten to recognize an expression
 EXPRESSION_REGEX = re.compile(
-    r"^(?P<left>[$]*\w+)(?P<operation>[+\-/*])(?P<right>[$]*\w+)$"
+    r"^(?P<left>[$]*[\w@]+)(?P<operation>[+\-/*])(?P<right>[$]*[\w@]+)$"
 )
 
 # C L A S S E S  ##############################################################
